@@ -362,6 +362,18 @@ FIXED_CASES = [
     (['P 0 0 put 5 a 0 1 0 0 -1 0 0 0 1 0 0 1 2', 'P 0 1 put 2 a 0 1 3 0 4 0 0 0 1 3 0 1 2', 'P 0 2 get 0 a 0 1 0 0 -1 0 0 0 1 1 1 2 3',
       'W 0 c 1 1 2 1 h1 1 1', 'W 0 c -1 0 0 0  2 0 2', 'END 0'],
      [_P, _P, _P, _w(1, 1, ['h1'], [1], 2, 3, numrecs=4), _w(-1, 0, [], [0, 2], 0, 2, numrecs=4), _END], {}),
+    # directed: sorted insertion of a MULTI-RECORD request in front of a pending one (the displaced lead's nonlead_off must
+    # move by the number of per-record requests), then a wait on the strict subset {displaced request}, then the inserted
+    # one; data compared with the blocking calls.  iput, bput, and iget_varn (the get queue is sorted for varn only).
+    (['P 0 0 put 3 a 0 1 0 0 1 0 0 0 1 0 0 0 1 1 4', 'P 0 1 put 2 a 0 3 0 0 3 0 0 0 1 0 0 3 8', 'P 0 2 get 0 a 0 1 0 0 -1 0 0 0 1 1 1 2 3',
+      'W 0 c 1 1 2 1 h0 1 0', 'W 0 c 1 1 1 1 h1 1 1', 'W 0 c -1 0 0 0  1 2', 'END 0'],
+     [_P, _P, _P, _w(1, 1, ['h0'], [0], 2, 3), _w(1, 1, ['h1'], [1], 1, 2), _w(-1, 0, [], [2], 0, 1), _END], {}),
+    (['P 0 0 bput 3 a 0 1 1 0 2 0 0 0 1 1 2 0 1 2 8', 'P 0 1 put 1 a 0 1 0 0 -1 0 0 0 1 0 6', 'P 0 2 bput 2 s 0 2 0 0 3 0 0 0 1 0 1 2 3 2 2',
+      'P 0 3 get 0 a 0 1 0 0 -1 0 0 0 1 1 1 2 3', 'W 0 c 2 1 2 2 h0 h1 2 0 1', 'W 0 c 1 0 1 1 h2 1 2', 'W 0 c -1 0 0 0  1 3', 'END 0'],
+     [_P, _P, _P, _P, _w(2, 1, ['h0', 'h1'], [0, 1], 2, 4), _w(1, 0, ['h2'], [2], 1, 2), _w(-1, 0, [], [3], 0, 1), _END], {}),
+    (['P 0 0 get 3 n 0 1 0 0 1 0 0 0 1 0 2 3 1 1 4', 'P 0 1 get 2 n 0 3 0 0 3 0 0 0 2 0 0 2 4 2 4 1 4', 'P 0 2 put 1 a 0 1 0 0 -1 0 0 0 1 0 6',
+      'W 0 c 1 1 2 1 h0 1 0', 'W 0 c 1 1 1 1 h1 1 1', 'W 0 c -1 0 0 0  1 2', 'END 0'],
+     [_P, _P, _P, _w(1, 1, ['h0'], [0], 2, 3), _w(1, 1, ['h1'], [1], 1, 2), _w(-1, 0, [], [2], 0, 1), _END], {}),
 ]
 
 
